@@ -206,7 +206,8 @@ Definition linearizable {Ob} (sstep : Ob -> nat -> op -> option (Ob * nat)) (o0 
 
 (* ------------------------------------------------------------------ Pool (history monitor)
    events: KInv 0 b=now (Get) | KRet 0 a=id b=now | KInv 1 a=id b=now (Put) | KRet 1 b=now
-           | KBegin 3 a=id (create callback) | KEnd 3 a=id (destroy callback).
+           | KBegin 3 a=id (create callback; c=1: it panicked, no id) | KEnd 3 a=id (destroy callback;
+           c=1: it panicked) | KRet 0 c=2: Get ended with a callback's panic.
    status of a resource id: 1 created, not yet returned by a Get | 2 held | 3 idle, put finished at
    time b | 4 idle, put still in progress | 5 destroyed.
    Contract: creates - destroys <= limit at all times; a Get never returns a resource that is held
@@ -221,6 +222,7 @@ Definition pool_mon_step (limit maxage : nat) (m : pool_mon) (e : ev) : option p
   let st := pm_st m in
   match e_k e, e_op e with
   | KBegin, _ =>
+      if Nat.eqb (e_c e) 1 then Some m else   (* the create callback panicked: no resource came into being *)
       match alookup Nat.eqb (e_a e) st with
       | None => if Nat.leb (S (pm_live m)) limit
                 then Some (mkpm (S (pm_live m)) (aset Nat.eqb (e_a e) (1, 0) st) (pm_getinv m) (pm_pput m)) else None
@@ -233,6 +235,7 @@ Definition pool_mon_step (limit maxage : nat) (m : pool_mon) (e : ev) : option p
       end
   | KInv, 0 => Some (mkpm (pm_live m) st (aset Nat.eqb t (e_b e) (pm_getinv m)) (pm_pput m))
   | KRet, 0 =>
+      if Nat.eqb (e_c e) 2 then Some m else   (* Get was unwound by a panicking callback: nothing handed out *)
       match alookup Nat.eqb (e_a e) st, alookup Nat.eqb t (pm_getinv m) with
       | Some (1, _), Some _ | Some (4, _), Some _ =>
           Some (mkpm (pm_live m) (aset Nat.eqb (e_a e) (2, t) st) (pm_getinv m) (pm_pput m))
